@@ -350,8 +350,20 @@ static void run_plan( const J & plan ) {
                     }
                     se = c;
                 }
-                int ai = ( int )op.num( "attr" );
-                if( !se || ai < 0 || ai >= se->attributes.list_length() ) {
+                // "attr" is the Part 21 slot index: redefining attributes occupy no slot of their own
+                int slot = ( int )op.num( "attr" );
+                int ai = -1;
+                for( int q = 0, seen = 0; se && q < se->attributes.list_length(); q++ ) {
+                    if( se->attributes[q].aDesc->AttrType() == AttrType_Redefining ) {
+                        continue;
+                    }
+                    if( seen == slot ) {
+                        ai = q;
+                        break;
+                    }
+                    seen++;
+                }
+                if( !se || ai < 0 ) {
                     o.k( "error", "null_attr: no such attribute" );
                 } else {
                     o.k( "ret", ( int )se->attributes[ai].set_null() );
